@@ -176,6 +176,14 @@ func (m *Model) FailWith(dir int, chunk []byte, cls string) {
 	m.call("failc %s %s %s", sessName(dir), vlib.Hex(chunk), cls)
 }
 
+// Resume: the model's caller keeps reading after the error the last Compare stopped at.
+func (m *Model) Resume(dir int) {
+	if m == nil {
+		return
+	}
+	m.dead[dir] = ""
+}
+
 // Compare lets the model reader run until it blocks or fails and compares with the real
 // reader rd at the same point: concatenation of everything delivered, error class, blocked or
 // not (not the per-Read grouping). On an error the real Read hands over at most len(buf) of the
